@@ -410,6 +410,25 @@ class PyformatParameter(DictParameter):
         return placeholder[2:-2]
 
 
+def _starts_with_minus(term: Any, sql: str) -> bool:
+    """
+    True if the rendering of `term` starts with a minus sign.  Under a parameter collector a negative number is
+    rendered as a placeholder, which hides its sign, so the decision also looks at the term itself; inline and
+    parameterised renderings then parenthesise alike.
+    """
+    if sql.startswith("-"):
+        return True
+    if isinstance(term, ValueWrapper):
+        value = term.value
+        if isinstance(value, Term):
+            return _starts_with_minus(value, "")
+        return isinstance(value, numbers.Number) and not isinstance(value, bool) and value < 0
+    if isinstance(term, ArithmeticExpression):
+        left_op = getattr(term.left, "operator", None)
+        return not term.left_needs_parens(term.operator, left_op) and _starts_with_minus(term.left, "")
+    return isinstance(term, Negative)
+
+
 class Negative(Term):
     def __init__(self, term: Term) -> None:
         super().__init__()
@@ -425,7 +444,7 @@ class Negative(Term):
 
     def get_sql(self, with_alias: bool = False, **kwargs: Any) -> str:
         term_sql = self.term.get_sql(**kwargs)
-        if isinstance(self.term, ArithmeticExpression) or term_sql.startswith("-"):
+        if isinstance(self.term, ArithmeticExpression) or _starts_with_minus(self.term, term_sql):
             term_sql = "({})".format(term_sql)
         sql = "-{term}".format(term=term_sql)
         if with_alias:
@@ -1252,7 +1271,7 @@ class ArithmeticExpression(Term):
         right_sql = self.right.get_sql(**kwargs)
         # A - -1 would read as a comment introducer
         right_parens = self.right_needs_parens(self.operator, right_op) or (
-            self.operator == Arithmetic.sub and right_sql.startswith("-")
+            self.operator == Arithmetic.sub and _starts_with_minus(self.right, right_sql)
         )
         arithmetic_sql = "{left}{operator}{right}".format(
             operator=self.operator.value,
